@@ -27,7 +27,7 @@ from vp import smt                                   # noqa
 from vp import replay as rp                          # noqa
 
 CONTRACT_MODULES = ['util', 'profile', 'manifest', 'verify', 'hashing', 'compression', 'find_top_level',
-                    'openpgp', 'recursiveloader', 'cli', 'utils_scripts', 'codec']
+                    'openpgp', 'recursiveloader', 'cli', 'utils_scripts', 'codec', 'sites', 'lemmas']
 
 
 def load_contracts():
@@ -221,6 +221,52 @@ def run_property(prop, tier, seed, only_fn=None, verbose=False):
             for r in pool.map(smt.discharge_one, retry, chunksize=1):
                 r['retried'] = True
                 by_id[r['id']] = r
+    # ---- const/ obligations: facts about extracted signatures, constants, call sites, call graph
+    for k, con in REGISTRY.items():
+        if not con.consts_ and not con.lemmas_:
+            continue
+        if only_fn and k[1] != only_fn:
+            continue
+        for name, fn, cprops in con.consts_:
+            if prop not in (cprops if cprops is not None else con.props):
+                continue
+            if k not in fres:
+                fres[k] = {'key': k, 'jobs': [], 'problems': [], 'source': None, 'stats': {'paths': 0}, 'assumed': set(),
+                           'inlined': set(), 'callees': set(), 'trivial': {}, 'site_hits': {}, 'symex_s': 0.0}
+                keys.append(k)
+            t0 = time.time()
+            try:
+                ok, detail = fn(_REPO)
+                status = 'unsat' if ok else 'sat'
+            except Exception as e:
+                ok, detail, status = False, {'error': repr(e)}, 'unknown'
+            j = {'id': '%s:%s/const/%s' % (k[0], k[1], name), 'fn': k, 'group': ['const', name], 'smt2': json.dumps(detail, default=str)[:4000],
+                 'expect_sat': False, 'timeout_ms': 0, 'info': {}}
+            jobs.append(j)
+            fres[k]['jobs'].append(j)
+            by_id[j['id']] = {'id': j['id'], 'status': status, 'solver': 'ast-matcher', 'time_s': time.time() - t0,
+                              'model': detail, 'tried': [('ast-matcher', status, 0.0)]}
+        for name, fn, cprops in con.lemmas_:
+            if prop not in (cprops if cprops is not None else con.props):
+                continue
+            if k not in fres:
+                fres[k] = {'key': k, 'jobs': [], 'problems': [], 'source': None, 'stats': {'paths': 0}, 'assumed': set(),
+                           'inlined': set(), 'callees': set(), 'trivial': {}, 'site_hits': {}, 'symex_s': 0.0}
+                keys.append(k)
+            try:
+                goal = fn()
+                text = smt.to_smt2([], goal)
+                j = {'id': '%s:%s/lemma/%s' % (k[0], k[1], name), 'fn': k, 'group': ['lemma', name], 'smt2': text,
+                     'expect_sat': False, 'timeout_ms': timeout_ms * 3, 'confirm': confirm, 'info': {}}
+                r = smt.discharge_one(j)
+            except Exception as e:
+                j = {'id': '%s:%s/lemma/%s' % (k[0], k[1], name), 'fn': k, 'group': ['lemma', name], 'smt2': '',
+                     'expect_sat': False, 'timeout_ms': 0, 'info': {}}
+                r = {'id': j['id'], 'status': 'unknown', 'solver': None, 'time_s': 0.0, 'model': None,
+                     'tried': [('error', repr(e), 0.0)]}
+            jobs.append(j)
+            fres[k]['jobs'].append(j)
+            by_id[j['id']] = r
     out = []
     for k in keys:
         fr = fres[k]
@@ -345,11 +391,15 @@ def summarise(prop, tier, seed, fres, jobs, by_id, wall, extra_bounded=None):
         con = REGISTRY[fr['key']]
         kf = [f for f in known if finding_matches(f, prop, fr['key'], g)]
         node, module, cls = _REPO.function(con.file, con.qualname)
-        params = [p.arg for p in node.args.args] + [p.arg for p in node.args.kwonlyargs]
-        try:
-            rep = rp.replay_contract(con, _REPO.root, o['model'], meta, g, params)
-        except Exception as e:
-            rep = {'reproduced': None, 'why': 'replay error: %r' % e}
+        if node is None or g[0] in ('const', 'lemma'):
+            rep = {'reproduced': None, 'why': 'obligation about the extracted source / a lemma: no input to replay',
+                   'detail': o.get('model')}
+        else:
+            params = [p.arg for p in node.args.args] + [p.arg for p in node.args.kwonlyargs]
+            try:
+                rep = rp.replay_contract(con, _REPO.root, o['model'], meta, g, params)
+            except Exception as e:
+                rep = {'reproduced': None, 'why': 'replay error: %r' % e}
         name = '%s__%s__%s' % (fr['key'][1].replace('.', '_'), g[0], hashlib.sha1('/'.join(g).encode()).hexdigest()[:8])
         path = os.path.join(ROOT, 'replays', prop, name + '.json')
         doc = {'property': prop, 'function': '%s:%s' % fr['key'], 'failed_obligation': '/'.join(g),
